@@ -57,6 +57,11 @@ class FakeSocket:
             r = self.server(w, self)
             if r == "EOF":
                 self.eof = True
+            elif isinstance(r, tuple) and r and r[0] == "stall":
+                # ("stall", data, cut): the first `cut` octets arrive, then nothing for longer than the read
+                # timeout (one recv raises socket.timeout), then the rest becomes available
+                data, cut = r[1], r[2]
+                self.avail += [data[:cut], None, data[cut:]]
             elif r:
                 cuts = self.plan(r)
                 i = 0
@@ -89,6 +94,10 @@ class FakeSocket:
                 return b""
             self.recvs.append((n, -1))
             raise socket.timeout("timed out")
+        if self.avail[0] is None:
+            self.avail.pop(0)
+            self.recvs.append((n, -1))
+            raise socket.timeout("timed out")
         c = self.avail[0]
         k = min(len(c), n, self.cap or len(c))
         out, rest = c[:k], c[k:]
@@ -100,7 +109,7 @@ class FakeSocket:
         return out
 
     def leftover(self):
-        return b"".join(self.avail)
+        return b"".join(x for x in self.avail if x)
 
     def close(self):
         self.closed = True
@@ -167,7 +176,7 @@ def call(fn, *args, **kw):
 CAPS_PLAIN = (b'"IMPLEMENTATION" "ref"\r\n"SASL" "PLAIN"\r\n"SIEVE" "fileinto"\r\n')
 
 
-def connected_client(server, plan=None, cap=0, version=True, greeting_plan=None):
+def connected_client(server, plan=None, cap=0, version=True, greeting_plan=None, debug=False):
     """a Client that went through the real connect() (PLAIN) against a fake socket; returns (client, sock)"""
     caps = CAPS_PLAIN + (b'"VERSION" "1.0"\r\n' if version else b"") + b"OK\r\n"
     state = {"authed": False}
@@ -179,8 +188,10 @@ def connected_client(server, plan=None, cap=0, version=True, greeting_plan=None)
         return server(w, sock)
     s = FakeSocket(srv, plan=None, cap=0)
     s.push(caps)
-    c = ms.Client("h")
-    with Patched([s]):
+    c = ms.Client("h", debug=debug)
+    import contextlib
+    import io
+    with Patched([s]), contextlib.redirect_stdout(io.StringIO()):
         r = call(c.connect, "u", "p")
     assert r == ("ret", True), r
     s.plan = plan or (lambda b: [len(b)])
